@@ -316,10 +316,51 @@ func c18R5(c *Ctx) {
 	f := c.fn("trzszTransfer.pipelineRecvAck$1")
 	// every Done() of the probing wait group is reachable on the path taken while bufInitPhase is set,
 	// regardless of the pause flag: the statistics branch is entered when ignore<=0 || bufInitPhase
-	dones := callsIn(f, idIs("(*sync.WaitGroup).Done"))
+	const release = "(*trzsz.trzszTransfer).ackBufInit"
+	dones := callsIn(f, idIs(release))
 	if len(dones) == 0 {
-		c.lost("bufInitWG.Done in pipelineRecvAck")
+		c.lost("release of the probing encoder (ackBufInit) in pipelineRecvAck")
 	}
+	// the release itself: a non-blocking send on the one-slot hand-shake channel
+	rel := c.fn("trzszTransfer.ackBufInit")
+	nb := false
+	eachInstr(rel, func(in ssa.Instruction) {
+		if sel, ok := in.(*ssa.Select); ok && !sel.Blocking {
+			for _, st := range sel.States {
+				if st.Send != nil && chanName(st.Chan) == "bufInitChan" {
+					nb = true
+				}
+			}
+		}
+	})
+	c.check(nb, "ackBufInit/non-blocking-send", c.pos(rel.Pos()), "the release is a non-blocking send on the hand-shake channel", "the release of the probing encoder can block the ack stage (or no longer signals)")
+	// the waiting side: a select with the hand-shake channel and a cancellation arm
+	w := c.fn("sendDataWriter.Write")
+	waits := false
+	eachInstr(w, func(in ssa.Instruction) {
+		if sel, ok := in.(*ssa.Select); ok && sel.Blocking {
+			hs, done := false, false
+			for _, st := range sel.States {
+				if st.Send == nil && chanName(st.Chan) == "bufInitChan" {
+					hs = true
+				}
+				if isDoneRecv(st) {
+					done = true
+				}
+			}
+			if hs {
+				waits = done
+				inPhase := false
+				for _, fc := range factsAt(sel.Block()) {
+					if call, _ := callOf(fc.V); call != nil && fc.Pol && isAtomicOnField(call, "bufInitPhase", "Load") {
+						inPhase = true
+					}
+				}
+				c.check(inPhase, "sendDataWriter.Write/wait-only-while-probing", c.ipos(sel), "the encoder waits for the ack only during the probing phase", "the encoder waits for per-chunk acks outside the probing phase (throughput collapses / deadlock with a full ack window)")
+			}
+		}
+	})
+	c.check(waits, "sendDataWriter.Write/wait-is-cancellable", c.pos(w.Pos()), "the encoder's wait for the probing ack also selects on cancellation", "the encoder's wait for the probing ack has no cancellation arm (or is gone)")
 	for _, d := range dones {
 		good := false
 		for _, fc := range factsAt(d.Block()) {
@@ -327,7 +368,7 @@ func c18R5(c *Ctx) {
 				good = true
 			}
 		}
-		c.check(good, "pipelineRecvAck/Done@initPhase", c.ipos(d), "the probing encoder is released only while the probing phase is on", "Done without the probing-phase test (negative WaitGroup counter panics)")
+		c.check(good, "pipelineRecvAck/release@initPhase", c.ipos(d), "the probing encoder is released only while the probing phase is on", "the encoder is released outside the probing phase")
 	}
 	// the probing phase may only be ended together with a Done
 	for _, ci := range callsIn(f, anyID) {
@@ -336,12 +377,12 @@ func c18R5(c *Ctx) {
 		}
 		hit, _ := reachAvoid(ci.(ssa.Instruction), func(x ssa.Instruction) bool {
 			c2, ok := x.(ssa.CallInstruction)
-			return ok && calleeID(c2.Common()) == "(*sync.WaitGroup).Done"
+			return ok && calleeID(c2.Common()) == release
 		}, func(x ssa.Instruction) bool {
 			_, isIf := x.(*ssa.If)
 			return isIf
 		})
-		c.check(hit != nil, "pipelineRecvAck/end-phase-with-Done", c.ipos(ci), "ending the probing phase releases the waiting encoder in the same step", "the probing phase is ended without releasing the encoder that waits for this ack (it waits forever)")
+		c.check(hit != nil, "pipelineRecvAck/end-phase-with-release", c.ipos(ci), "ending the probing phase releases the waiting encoder in the same step", "the probing phase is ended without releasing the encoder that waits for this ack (it waits forever)")
 	}
 	// the branch that skips statistics is not taken while probing
 	for _, b := range f.Blocks {
@@ -353,7 +394,7 @@ func c18R5(c *Ctx) {
 			// the If `ignore<=0 || bufInitPhase`: its true edge must lead to the statistics (a Done is reachable)
 			hit, _ := reachFrom(b.Succs[0], 0, func(x ssa.Instruction) bool {
 				c2, ok := x.(ssa.CallInstruction)
-				return ok && calleeID(c2.Common()) == "(*sync.WaitGroup).Done"
+				return ok && calleeID(c2.Common()) == release
 			}, nil)
 			if hit != nil {
 				c.ok("pipelineRecvAck/stats-while-probing", c.ipos(i), "while probing, acks always go through the statistics branch that releases the encoder")
